@@ -104,6 +104,16 @@ def run(ctx):
              "writer normalise names identically (lower())", floor=2)
 
     ok, n = defines_origins(ctx, run, "C05.R1")
+    # the hop itself: whatever route an %include takes (file, URL, package:),
+    # the nested parser is given the including parser's mapping
+    from rules.common import crosscheck as _cc
+    _cc(ctx, "C05.R1", "ZConfig.loader.ConfigLoader.includeConfiguration",
+        "ref_loader.py", "includeConfiguration",
+        "ZConfig.loader.ConfigLoader",
+        "every included resource is parsed with the includer's mapping")
+    _cc(ctx, "C05.R1", "ZConfig.loader.ConfigLoader._parse_resource",
+        "ref_loader.py", "parse_resource", "ZConfig.loader.ConfigLoader",
+        "the nested parser receives the mapping it was given")
     run.analysed["defines_origin_leaves"] = n
 
     # R2: stores of the mapping into other objects
